@@ -840,6 +840,19 @@ func (s *SimStream) Read(p []byte) (int, error) {
 	case "whole":
 	case "byte":
 		n = 1
+		// Inside a very large frame, byte-wise delivery resumes 64 bytes before the
+		// next point of interest (frame structure or the stop position); the
+		// millions of identical one-byte reads in between decide nothing.
+		target := s.nextMark(s.off)
+		if s.stop < target {
+			target = s.stop
+		}
+		if far := target - s.off; far > 4096 {
+			n = far - 64
+			if n > maxn {
+				n = maxn
+			}
+		}
 	default:
 		r := s.rng
 		switch x := r.Intn(100); {
